@@ -215,7 +215,7 @@ func ExecModel(m *model.FS, o Op) string {
 		return ""
 	case "update":
 		if !m.RawUpdate(o.P, o.N == 1, Content(o.C), 0o640) {
-			return "" // an update record for a missing name is written but changes nothing
+			return "not-exist"
 		}
 		return ""
 	case "delete":
@@ -338,10 +338,7 @@ func ExecImpl(s *rig.Stack, o Op) error {
 		if err != nil {
 			return err
 		}
-		if s.Handles == nil {
-			s.Handles = map[int]*rig.Handle{}
-		}
-		s.Handles[o.H] = &rig.Handle{F: f, Path: o.P, Flags: o.N}
+		s.SetHandle(o.H, &rig.Handle{F: f, Path: o.P, Flags: o.N})
 		return nil
 	case "create":
 		f, err := fsys.Create(o.P)
@@ -362,7 +359,7 @@ func ExecImpl(s *rig.Stack, o Op) error {
 		}
 		return errors.New("harness: no lstat support")
 	case "hread", "hreadall", "hwrite", "hsync", "hclose", "hseek", "htrunc", "hwriteat", "hwritestring":
-		h := s.Handles[o.H]
+		h := s.GetHandle(o.H)
 		if h == nil {
 			return ErrNoHandle
 		}
@@ -400,7 +397,7 @@ func ExecImpl(s *rig.Stack, o Op) error {
 		case "hsync":
 			return h.F.Sync()
 		default:
-			delete(s.Handles, o.H)
+			s.DelHandle(o.H)
 			return h.F.Close()
 		}
 	case "stat":
